@@ -172,6 +172,21 @@ def check(rep, tier, seed):
         texts.append(t); metas.append(m)
         if u:
             untied.add(str(k))
+    # minimised earlier failures run in every tier (KNOWN_FINDINGS.txt: fixed entries of C15)
+    nan64 = f64bits(float("nan"))
+    corpus = [
+        ("M 300 48000 -1 -1 72000299\nI\nE 100 1", {"ch": 300, "rate": 48000, "corpus": "base-setting-float-sum"}),
+        ("IM 100 48000 -1 -1 24000099\nE 2000 1", {"ch": 100, "rate": 48000, "corpus": "base-setting-float-sum, valid channel count"}),
+        ("V 4 200000 %d\nC2S x 1 0 -5 128 %d 144000 %d\nI\nE 9000 2" % (f32bits(-0.05), f64bits(1e-9), nan64), {"ch": 4, "rate": 200000, "corpus": "nan-reservoir-bias"}),
+        ("M 2 44100 128000 96000 64000\nC2S x 1 64 96 128 %d 20000 %d\nI\nE 9000 1" % (f64bits(1.5), nan64), {"ch": 2, "rate": 44100, "corpus": "nan-reservoir-bias"}),
+        ("V 6 44100 %d\nCO 33 %d\nI\nE 12000 4" % (f32bits(0.9999), nan64), {"ch": 6, "rate": 44100, "corpus": "nan-lowpass"}),
+        ("V 2 44100 %d\nCO 33 %d\nCO 49 %d\nI\nE 12000 1" % (f32bits(0.3), nan64, nan64), {"ch": 2, "rate": 44100, "corpus": "nan-lowpass, nan impulse tune"}),
+    ]
+    for body, m in corpus:
+        k = len(texts)
+        texts.append("case %d tied\n%s\nend\n" % (k, body))
+        m.update({"case": k, "shape": "corpus", "ops": [l.split()[0] for l in body.split("\n")], "samples": 0})
+        metas.append(m)
     shards = 16
 
     def one(i):
